@@ -28,9 +28,9 @@ def ess_id(x: Any, on: bool) -> int:
     return 2 * int(x) - (0 if on else 1) if x is not None else 0      # x=1,on -> 2 ; x=1,off -> 1
 
 
-def hdl(reasons, script=None, *, optional=False, deleted=False, retries=0, errors='temporary', backoff=2):
+def hdl(reasons, script=None, *, optional=False, deleted=False, retries=0, errors='temporary', backoff=2, timeout=0):
     return {'reasons': list(reasons), 'script': list(script or []), 'optional': optional, 'deleted': deleted,
-            'retries': retries, 'errors': errors, 'backoff': backoff}
+            'retries': retries, 'errors': errors, 'backoff': backoff, 'timeout': timeout}
 
 
 # --------------------------------------------------------------------------- running
@@ -60,7 +60,7 @@ def run_scenario(sc: dict[str, Any]) -> dict[str, Any]:
                 if raw is None:
                     raw = ann.get(f'{PREFIX}/{h.replace("/", ".")}-ofDRS')       # the key of a ReplicaSet owned by a Deployment (scenario flag `drs`)
                 if raw is None:
-                    prog[h] = {'st': 'none', 'r': 0, 'pu': 'none', 'until': 0}
+                    prog[h] = {'st': 'none', 'r': 0, 'pu': 'none', 'until': 0, 'first': 0}
                 else:
                     d = json.loads(raw)
                     st = 'succ' if d.get('success') else 'fail' if d.get('failure') else 'retry' if d.get('retries') else 'pend'
@@ -68,7 +68,11 @@ def run_scenario(sc: dict[str, Any]) -> dict[str, Any]:
                     if d.get('delayed') and st == 'retry':
                         v = to_virtual(d['delayed'])
                         until = int(v) if float(v).is_integer() else -1
-                    prog[h] = {'st': st, 'r': int(d.get('retries') or 0), 'pu': d.get('purpose') or 'none', 'until': until}
+                    first = 0
+                    if d.get('started'):
+                        v = to_virtual(d['started'])
+                        first = int(v) if float(v).is_integer() else -1
+                    prog[h] = {'st': st, 'r': int(d.get('retries') or 0), 'pu': d.get('purpose') or 'none', 'until': until, 'first': first}
             return {'ess': ess_id(o.get('spec', {}).get('x'), on), 'lh': lh, 'prog': prog,
                     'fins': ['K' if f == FIN else f for f in md.get('finalizers', []) or []],
                     'deleting': md.get('deletionTimestamp') is not None,
@@ -104,7 +108,7 @@ def run_scenario(sc: dict[str, Any]) -> dict[str, Any]:
                 c = hs[h]
                 kw = dict(registry=reg, id=h, errors={'temporary': kopf.ErrorsMode.TEMPORARY, 'permanent': kopf.ErrorsMode.PERMANENT,
                                                        'ignored': kopf.ErrorsMode.IGNORED}[c['errors']],
-                          retries=c['retries'] or None, backoff=c['backoff'], **flt)
+                          retries=c['retries'] or None, backoff=c['backoff'], timeout=c.get('timeout') or None, **flt)
                 for reason in c['reasons']:
                     if reason == 'create': kopf.on.create(GROUP, VERSION, PLURAL, **kw)(fns[h])
                     elif reason == 'update': kopf.on.update(GROUP, VERSION, PLURAL, **kw)(fns[h])
@@ -217,9 +221,9 @@ def _safe(fn, *a):
 
 def conf_of(sc: dict[str, Any]) -> dict[str, Any]:
     hs = sc['handlers']; order = sc.get('order') or list(hs)
-    none = {'reasons': [], 'optional': False, 'deleted': False, 'retries': 0, 'mode': 'temporary', 'backoff': 2}
+    none = {'reasons': [], 'optional': False, 'deleted': False, 'retries': 0, 'mode': 'temporary', 'backoff': 2, 'timeout': 0}
     hc = {h: ({'reasons': list(hs[h]['reasons']), 'optional': hs[h]['optional'], 'deleted': hs[h]['deleted'],
-               'retries': hs[h]['retries'], 'mode': hs[h]['errors'], 'backoff': hs[h]['backoff']} if h in hs else none)
+               'retries': hs[h]['retries'], 'mode': hs[h]['errors'], 'backoff': hs[h]['backoff'], 'timeout': hs[h].get('timeout', 0)} if h in hs else none)
           for h in UNIVERSE}
     conf = {'hc': hc, 'order': order, 'lifecycle': sc.get('lifecycle', 'asap'), 'ctimeout': sc.get('ctimeout', 5)}
     if sc.get('subs'):
@@ -466,7 +470,7 @@ def gen_scenarios(seed: int, n: int, profile: str) -> list[dict[str, Any]]:
             if profile in ('finalizer', 'progress', 'converge', 'stealth', 'mixed'): ops += ['toggle'] * (3 if profile in ('finalizer', 'stealth', 'mixed') else 1)
             if profile in ('finalizer', 'converge', 'progress', 'mixed') and not deleted: ops += ['delete'] * 2
             if profile in ('finalizer', 'mixed'): ops += ['finadd', 'findel', 'finadd']
-            if profile in ('progress', 'converge', 'resume', 'errors', 'subs'): ops += ['kill', 'stop'] if alive else ['start'] * 4
+            if profile in ('progress', 'converge', 'resume', 'errors', 'subs', 'timeouts'): ops += ['kill', 'stop'] if alive else ['start'] * 4
             if profile == 'mixed': ops += ['stop'] if alive else ['start'] * 4
             if profile in ('resume',) and alive: ops += ['relist'] * 3
             if profile == 'consistency': ops += (['release'] * 4 if held else ['hold'] * 4) + ['fedit'] * 3
@@ -500,6 +504,12 @@ def gen_scenarios(seed: int, n: int, profile: str) -> list[dict[str, Any]]:
               'env': env, 'end': t + 80, 'tail_from': t + 60, 'profile': profile,
               'sync': 'all' if i % 5 == 3 else 'mixed' if i % 10 == 7 else '',     # synchronous (threaded) handlers
               'drs': i % 6 == 5 and profile != 'mixed'}        # every sixth history is about a ReplicaSet owned by a Deployment (marked progress keys)
+        if profile == 'timeouts':    # handler timeouts: attempts stop T seconds after the first one, across retries and restarts
+            for h in hs:
+                if rnd.random() < 0.7:
+                    hs[h]['timeout'] = rnd.choice([2, 3, 5, 8])
+                    hs[h]['script'] = [rnd.choice([('temp', rnd.choice([1, 2, 3])), ('temp', 1), 'exc', ('temp', 4)]) for _ in range(rnd.randint(2, 5))] + ['ok']
+            sc['sync'] = ''; sc['drs'] = False
         if profile == 'subs':        # handler 'a' registers two sub-handlers whenever it runs
             if 'a' not in hs:
                 hs['a'] = hdl(['create', 'update'], [], backoff=1); sc['handlers'] = hs; sc['order'] = ['a'] + [h for h in sc['order'] if h != 'a']
